@@ -809,3 +809,98 @@ def Probe.agrees (t : Tbl) (p : Probe) : Bool :=
    | none => p.typ == "none")
 
 end DclabModel.Meta
+
+namespace DclabModel.Meta
+open PyVal Except
+
+/-! ## feature registry (temporary and plug-in features) as a history -/
+
+/-- the table with additionally registered scalar features -/
+def Tbl.withFeats (t : Tbl) (extra : List Str) : Tbl := { t with feats := t.feats ++ extra }
+
+inductive RegOp where
+  | reg (name : Str)      -- `register_temporary_feature` / `PlugInFeature(...)`
+  | dereg (name : Str)    -- `deregister_temporary_feature` / `remove_plugin_feature`
+  deriving DecidableEq, Repr
+
+def regStep (r : List Str) : RegOp → List Str
+  | .reg n => if r.contains n then r else r ++ [n]
+  | .dereg n => r.filter (· ≠ n)
+
+/-- registered features after a history of registry operations -/
+def registry (ops : List RegOp) : List Str := ops.foldl regStep []
+
+/-- a history: registry operations interleaved with assignments (queries) -/
+inductive HOp where
+  | r (op : RegOp)
+  | q (sec key : Str) (v : PyVal)
+  deriving DecidableEq, Repr
+
+/-- answers of the queries of a history; the only state is the registry -/
+def Tbl.runHist (t : Tbl) : List Str → List HOp → List (Except Err (Dict × List Warn))
+  | _, [] => []
+  | reg, .r op :: rest => t.runHist (regStep reg op) rest
+  | reg, .q sec key v :: rest => (t.withFeats reg).setitem sec [] key v :: t.runHist reg rest
+
+def regOps : List HOp → List RegOp
+  | [] => []
+  | .r op :: rest => op :: regOps rest
+  | .q .. :: rest => regOps rest
+
+/-! ## the line codec of `load_from_file` -/
+
+def isSQ (c : Nat) : Bool := c = 39 || c = 32       -- `.strip("' ")`
+def isDQ (c : Nat) : Bool := c = 34 || c = 32       -- `.strip('" ')`
+
+/-- text right of `=` as `load_from_file` sees it: cut at the first `#`, `line.strip()`,
+`val.strip("' ").strip('" ').strip()` -/
+def cleanText (raw : Str) : Str :=
+  strip (stripBy isDQ (stripBy isSQ (strip (raw.takeWhile (· ≠ 35)))))
+
+/-- one line `key = raw` of a configuration file (known key): empty values are skipped -/
+def Tbl.fileLine (t : Tbl) (sec : Str) (d : Dict) (key raw : Str) :
+    Except Err (Dict × List Warn) :=
+  if cleanText raw = [] then ok (d, []) else t.fileRoute sec d key (cleanText raw)
+
+/-- characters removed at the ends of a value by the loader -/
+def edgeChar (c : Nat) : Bool := isSpace c || c = 39 || c = 34
+
+/-- strings the configuration-file route reproduces exactly: no `#`, no blank/quote at the ends -/
+def Plain (s : Str) : Prop :=
+  (∀ c ∈ s, c ≠ 35) ∧ (∀ c, s.head? = some c → edgeChar c = false) ∧
+  (∀ c, s.reverse.head? = some c → edgeChar c = false)
+
+/-! ## HDF5 attributes as a map; `store_metadata` histories -/
+
+abbrev Attrs := List ((Str × Str) × PyVal)
+
+def Attrs.get? (a : Attrs) (k : Str × Str) : Option PyVal := (a.find? (·.1 = k)).map (·.2)
+def Attrs.put (a : Attrs) (k : Str × Str) (v : PyVal) : Attrs :=
+  (k, v) :: a.filter (fun e => e.1 ≠ k)
+
+def decodeBytes : PyVal → PyVal
+  | sc (.bytes s) => sc (.str s)
+  | v => v
+
+/-- the attribute value `store_metadata` writes for one entry -/
+def Tbl.storedValue (t : Tbl) (sec key : Str) (v : PyVal) : Except Err PyVal :=
+  (t.convert sec key (decodeBytes v)).map h5
+
+/-- `store_metadata` (one or several calls: see `storeMeta_append`): entries in order, every
+attribute is overwritten; a converter error aborts -/
+def Tbl.storeMeta (t : Tbl) : Attrs → List (Str × Str × PyVal) → Except Err Attrs
+  | a, [] => ok a
+  | a, (sec, key, v) :: r =>
+    match t.storedValue sec key v with
+    | error e => error e
+    | ok w => t.storeMeta (a.put (sec, key) w) r
+
+/-- the value most recently written for a key -/
+def lastWrite : List (Str × Str × PyVal) → Str × Str → Option PyVal
+  | [], _ => none
+  | (s, k, v) :: r, K =>
+    match lastWrite r K with
+    | some x => some x
+    | none => if (s, k) = K then some v else none
+
+end DclabModel.Meta
